@@ -1073,7 +1073,17 @@ var reInlinedCompositeMap = regexp.MustCompile(`,1,0,0\)T\(c\d+,(\d+),\d+\)H\(\d
 // count differs from its number of elements (MapDataSlab.canBeEncodedAsCompactMap sizes its key
 // and value slices by that count); `huge` = the count is so large that calling EncodeSlab would
 // try to allocate gigabytes.
+var reCompositeCount = regexp.MustCompile(`T\(c\d+,(\d+),`)
+
 func compactCountMismatch(dump string) (mismatch, huge bool) {
+	// any composite-typed map with an enormous extra-data count: never hand it to EncodeSlab, whatever
+	// its elements look like (a changed encoder may size a slice by the count on a path the current
+	// one leaves early; the process would be killed for its memory use, taking the report with it)
+	for _, m := range reCompositeCount.FindAllStringSubmatch(dump, -1) {
+		if c, err := strconv.ParseUint(m[1], 10, 64); err != nil || c > 1<<22 {
+			huge = true
+		}
+	}
 	for _, m := range reInlinedCompositeMap.FindAllStringSubmatch(dump, -1) {
 		n := 0
 		if m[2] != "" {
